@@ -96,10 +96,10 @@ Definition enc_verdict (s : verdict) : list Z :=
 
 Definition with_len (l : list Z) : list Z := zlen l :: l.
 
-(* [model outcome] [spec verdict] [gaps], each with its length in front *)
+(* [model outcome] [spec verdict] [model outcome of validate_param], each with its length in front *)
 Definition eval_validate (T : otables) (w : validator) (v : value) : list Z :=
   let O := oracles_of T in
-  with_len (enc_outcome (validate gen_shapes O w v)) ++ with_len (enc_verdict (spec O w v)) ++ with_len (gaps O w v)
+  with_len (enc_outcome (validate gen_shapes O w v)) ++ with_len (enc_verdict (spec O w v))
   ++ with_len (enc_outcome (validate_param gen_shapes O w v)).
 
 Definition eval_convert (T : otables) (v : value) (t : ttype) : list Z :=
@@ -108,7 +108,7 @@ Definition eval_convert (T : otables) (v : value) (t : ttype) : list Z :=
 
 (* primitives, compared one by one with CPython *)
 Definition enc_opt_Z (o : option Z) : list Z := match o with Some z => [1; z] | None => [0] end.
-Definition eval_show (z : Z) : list Z := show_Z z.
+Definition eval_show (z : Z) : list Z := match str_of_int z with Ok s => 0 :: s | Raise e => 1 :: enc_exn e end.
 Definition eval_parse (s : str) : list Z := match parse_dec s with Some z => 1 :: enc_Z z | None => [0] end.
 Definition eval_strip (s : str) : list Z := py_strip s.
 Definition eval_float_of_int (z : Z) : list Z :=
@@ -119,7 +119,8 @@ Definition eval_cmp (a b : value) : list Z :=
   map (fun op => match py_cmp op a b with Ok true => 1 | Ok false => 0 | Raise _ => 2 end) [CLt; CLe; CGt; CGe; CEq; CNe].
 Definition eval_ws : list Z := flat_map (fun r => [fst r; snd r]) ws_ranges.
 Definition eval_num_ws : list Z := flat_map (fun r => [fst r; snd r]) num_ws_ranges.
-Definition eval_int_str (s : str) : list Z := match parse_dec (num_strip s) with Some z => 1 :: enc_Z z | None => [0] end.
+Definition eval_int_str (s : str) : list Z :=
+  match int_of_canonical s with Some (Ok z) => 1 :: enc_Z z | Some (Raise e) => 2 :: enc_exn e | None => [0] end.
 Definition eval_regex (m : matchmode) (r : re) (s : str) : list Z := [if re_test m r s then 1 else 0].
 Definition eval_email (s : str) : list Z :=
   [if re_test (s_email_mode gen_shapes) (s_regex_email gen_shapes) s then 1 else 0; if email_predb s then 1 else 0].
